@@ -77,3 +77,47 @@ def replay(module, name, params, hcfg, pins):
         return None, f'replay crashed: {type(e).__name__}: {e}'
     finally:
         C.pins = None
+
+
+def run_instance_enum(module, name, params, hcfg, func, bound, cap=300000):
+    """enumerating mode: the same instance, every input/randomness symbol ranging over its whole finite domain, plain ints through the
+    real code (no solver).  Exhaustive for the instance; used where the symbolic query is beyond the solver."""
+    import itertools
+    t0 = time.time()
+    H = Harness(**hcfg); H.install()
+    build, check = _inst(module, name)(H, **dict(params))
+    # discover the symbols (names and ranges) with one pinned run on the lower bounds
+    C.reset([]); C.pins = {}; H.prepare()
+    try:
+        build()
+        syms = list(C.symbols)
+    finally:
+        C.pins = None
+    size = 1
+    for _, lo, hi in syms: size *= (hi - lo)
+    tag = ','.join(f'{k}={v}' for k, v in sorted(params.items())) + f';k={hcfg.get("k")},prss={not hcfg.get("no_prss", False)}'
+    o = Ob(f'{name}[{tag}]', func, 'symx-enum', B, 'discharged', 'cpython', 0.0, bound=bound + f'; exhaustive over {size} assignments of {len(syms)} symbols')
+    if size > cap:
+        o.status = 'error'; o.detail = f'domain too large for enumeration: {size}'
+        return [o]
+    n = 0
+    for combo in itertools.product(*[range(lo, hi) for _, lo, hi in syms]):
+        pins = {nm: v for (nm, _, _), v in zip(syms, combo)}
+        C.reset([]); C.pins = pins; H.prepare()
+        try:
+            out, info = build()
+            if [s[0] for s in C.symbols] != [s[0] for s in syms]:
+                raise RuntimeError('symbol set depends on the values (data-dependent randomness): enumeration not exhaustive')
+            bad = [g for g, f in check(out, info) if not ground_true(f)]
+        except Exception as e:
+            bad = [f'raised {type(e).__name__}: {e}']
+        finally:
+            C.pins = None
+        n += 1
+        if bad:
+            o.status = 'refuted'
+            o.witness = dict(key=f'{func}:{name}:{bad[0]}', text=f'real code with {pins} violates {bad}', replay=replay_code(module, name, params, hcfg, pins))
+            o.detail = o.witness['text']
+            break
+    o.evals = max(1, n); o.time = time.time() - t0
+    return [o]
